@@ -5,10 +5,10 @@ import (
 	"encoding/json"
 	"fmt"
 	"os"
-	"strings"
 	"runtime"
 	"runtime/debug"
 	"runtime/pprof"
+	"strings"
 	"sync"
 
 	"github.com/influxdata/kapacitor/server/vars"
@@ -179,7 +179,7 @@ func Run(r *rt.Run) error {
 	maxLen, svcLen, trLen, nRandom, nRandomSvc := 3, 3, 2, 0, 0
 	dblBoth, dblAll := 2, 0 // double crashes: history length bound for both-topic / all configurations
 	if r.Thorough() {
-		maxLen, svcLen, trLen, nRandom, nRandomSvc = 4, 4, 3, 150, 1500
+		maxLen, svcLen, trLen, nRandom, nRandomSvc = 4, 3, 3, 100, 600
 		dblBoth, dblAll = 3, 2
 	}
 	ids := []string{"a", "b"}
@@ -189,13 +189,25 @@ func Run(r *rt.Run) error {
 	jobs = append(jobs,
 		job{kind: "node", cfg: Cfg{Anon: true, Named: true, SCO: true}, hist: []Pt{{"a", 2}, {"a", 2}}},
 		job{kind: "svc", ops: []SOp{{"collect", "anon", "a", 3}, {"close", "anon", "", 0}, {"collect", "anon", "b", 1}}})
-	for _, h := range histories(maxLen, ids, levels) {
-		for _, c := range cfgs {
-			both := c.Anon && c.Named
-			dbl := (both && len(h) <= dblBoth) || len(h) <= dblAll
-			jobs = append(jobs, job{kind: "node", cfg: c, hist: h, taskRestarts: len(h) <= trLen, doubleCrash: dbl})
+	addNode := func(hs [][]Pt, minLen int) {
+		for _, h := range hs {
+			if len(h) < minLen {
+				continue
+			}
+			for _, c := range cfgs {
+				both := c.Anon && c.Named
+				// the longest double-crash histories only where the two topics can disagree
+				// and the disagreement matters (stateChangesOnly)
+				dbl := (both && (len(h) < dblBoth || (len(h) == dblBoth && c.SCO))) || len(h) <= dblAll
+				jobs = append(jobs, job{kind: "node", cfg: c, hist: h, taskRestarts: len(h) <= trLen, doubleCrash: dbl})
+			}
 		}
 	}
+	// all four levels up to length 2 (quick) / 3 (thorough); the longest histories of a tier
+	// run over {OK, WARNING, CRITICAL} (persistence only distinguishes OK from non-OK and
+	// equal from different levels)
+	addNode(histories(maxLen-1, ids, levels), 1)
+	addNode(histories(maxLen, ids, []int{0, 2, 3}), maxLen)
 	nExh := len(jobs) - 2
 	// seeded random longer histories (a level changes with probability 1/2 so that
 	// stateChangesOnly sees both repeats and changes)
@@ -212,14 +224,19 @@ func Run(r *rt.Run) error {
 		}
 		jobs = append(jobs, job{kind: "node", cfg: cfgs[r.Rand.Intn(len(cfgs))], hist: h, taskRestarts: true})
 	}
-	svcLevels := []int{0, 3}
-	if r.Thorough() {
-		svcLevels = levels
-	}
 	nSvc := 0
-	for _, ops := range opHistories(svcLen, ids, svcLevels) {
-		jobs = append(jobs, job{kind: "svc", ops: ops})
-		nSvc++
+	addSvc := func(hs [][]SOp, minLen int) {
+		for _, ops := range hs {
+			if len(ops) >= minLen {
+				jobs = append(jobs, job{kind: "svc", ops: ops})
+				nSvc++
+			}
+		}
+	}
+	if r.Thorough() {
+		addSvc(opHistories(3, ids, levels), 1)
+	} else {
+		addSvc(opHistories(3, ids, []int{0, 3}), 1)
 	}
 	for i := 0; i < nRandomSvc; i++ {
 		n := 5 + r.Rand.Intn(5)
@@ -353,7 +370,7 @@ func Run(r *rt.Run) error {
 	r.Extra["crash_restarts_node"] = restarts["crash"]
 	r.Extra["task_restarts_node"] = restarts["taskrestart"]
 	r.Extra["crash_restarts_svc"] = restarts["svc"]
-	r.Finish("node: every level history up to the length bound over 2 alert IDs x 4 levels (up to renaming of IDs) x {anonymous, named, both topics} x stateChangesOnly on/off on a real AlertNode task, restarted (fresh service + TaskMaster) on the storage as it stood before and after every topic-store commit and at every point boundary with the remaining points fed again, plus an in-process task restart after every point and (shorter histories) a second crash at every boundary of the second run; svc: every history of Collect/CloseTopic/DeleteTopic on two topics up to the bound with a restart at every commit boundary; thorough adds seeded random longer histories; non-trivial = at least one topic-store transaction was committed before the crash / task restart (the restart is not on a pristine store); distinct by (configuration, history, crash point)", nRandom == 0)
+	r.Finish("node: every level history up to the length bound over 2 alert IDs x 4 levels, the longest length of the tier over 3 levels (up to renaming of IDs) x {anonymous, named, both topics} x stateChangesOnly on/off on a real AlertNode task, restarted (fresh service + TaskMaster) on the storage as it stood before and after every topic-store commit and at every point boundary with the remaining points fed again, plus an in-process task restart after every point and (shorter histories) a second crash at every boundary of the second run; svc: every history of Collect/CloseTopic/DeleteTopic on two topics up to the bound with a restart at every commit boundary; thorough adds seeded random longer histories; non-trivial = at least one topic-store transaction was committed before the crash / task restart (the restart is not on a pristine store); distinct by (configuration, history, crash point)", nRandom == 0)
 	return nil
 }
 
